@@ -1,0 +1,674 @@
+//go:build verif
+
+package table
+
+import (
+	"container/list"
+	"time"
+
+	enc "github.com/named-data/ndnd/std/encoding"
+)
+
+var _ list.List
+var _ enc.Name
+
+// Contracts for the gcv verifier (/verif); compiled only with build tag `verif`.
+// PIT-CS name tree (pit-cs-tree.go), PIT entries (pit-cs.go), LRU replacement policy (cs-lru.go).
+
+// ---------------------------------------------------------------------------------------
+// Name tree: per-node facts
+// ---------------------------------------------------------------------------------------
+
+// pitcsNodeAttached: n hangs below its parent under the hash of its component.
+func pitcsNodeAttached(n *pitCsTreeNode) bool {
+	return n.parent != nil && n.component != nil && n.parent.pitcsHasChild((*n.component).Hash()) && n.parent.children[(*n.component).Hash()] == n
+}
+
+// pitcsHasChild: ghost getter, membership of a component hash in the children map.
+func (n *pitCsTreeNode) pitcsHasChild(k uint64) bool {
+	_, ok := n.children[k]
+	return ok
+}
+
+// pitcsDepthPlus1: loop measure for walks towards the root (0 for nil, else depth+1).
+func pitcsDepthPlus1(n *pitCsTreeNode) int {
+	if n == nil {
+		return 0
+	}
+	return n.depth + 1
+}
+
+// pitcsNodeEmpty: n has no children, no PIT entry and no CS entry.
+func pitcsNodeEmpty(n *pitCsTreeNode) bool {
+	return len(n.children) == 0 && len(n.pitEntries) == 0 && n.csEntry == nil
+}
+
+// pitcsDeadLeaf: an attached non-root node that holds nothing. A finite tree without dead leaves has no dead branch.
+func pitcsDeadLeaf(n *pitCsTreeNode) bool { return pitcsNodeAttached(n) && pitcsNodeEmpty(n) }
+
+// (getChildrenCount carries no contract on purpose: it is inlined at its only call site.)
+
+// treeShape: facts that hold for every node ever allocated (attached or already pruned): a non-root node has a
+// component and its parent has a children map; two nodes never share a children map. (All universally quantified node
+// facts are phrased so that they also hold for an all-zero object.)
+//
+//@ func (*pitCsTreeNode).pruneIfEmpty
+//@   ensures ghostPitcsClock == old(ghostPitcsClock)
+//@   invariant forall(func(n *pitCsTreeNode) bool { return n.parent != nil ==> n.component != nil && n.parent.children != nil })
+//@   invariant forall(func(a *pitCsTreeNode, b *pitCsTreeNode) bool { return a != b && a.children != nil ==> a.children != b.children })
+//@   requires forall(func(n *pitCsTreeNode) bool { return n != p ==> !pitcsDeadLeaf(n) })
+//@   modifies all(ghostPitcsChildMap)
+//@   ensures [no-dead-branch] forall(func(n *pitCsTreeNode) bool { return !pitcsDeadLeaf(n) })
+//@   ensures [only-deletes] forall(func(n *pitCsTreeNode, k uint64) bool { return mapHas(n.children, k) ==> old(mapHas(n.children, k)) && n.children[k] == old(n.children[k]) })
+//@   loop 1 invariant curNode != nil
+//@   loop 1 invariant forall(func(n *pitCsTreeNode, k uint64) bool { return mapHas(n.children, k) ==> old(mapHas(n.children, k)) && n.children[k] == old(n.children[k]) })
+//@   loop 1 invariant forall(func(n *pitCsTreeNode) bool { return n != curNode ==> !pitcsDeadLeaf(n) })
+
+// ghostPitcsChildMap names the type of pitCsTreeNode.children for `modifies all(...)` clauses.
+type ghostPitcsChildMap = map[uint64]*pitCsTreeNode
+
+// ---------------------------------------------------------------------------------------
+// container/list (external dependency, A-DEP): trusted effect contracts for the four operations the
+// LRU policy uses. The model is valid for a list that is only built with PushBack and shrunk with
+// Remove (the only use in this package): then the list order is the order of insertion, which the
+// model records as an immutable logical time stamp per element (elements are never reused).
+//   specCsLruStamp(e)  = logical time at which e was pushed
+//   e.list == l      = e is currently an element of l        l.len = number of elements of l
+// Front() is the element with the least stamp: the one pushed longest ago.
+// ---------------------------------------------------------------------------------------
+
+// specCsLruStamp: uninterpreted (immutable attribute of an element).
+func specCsLruStamp(e *list.Element) int { return specCsLruStamp(e) }
+
+//@ func (*container/list.List).Len
+//@   ensures ghostPitcsClock == old(ghostPitcsClock)
+//@   trusted
+//@   ensures result == l.len && result >= 0
+
+//@ func (*container/list.List).PushBack
+//@   ensures ghostPitcsClock == old(ghostPitcsClock)
+//@   trusted
+//@   modifies l.len
+//@   ensures result != nil && fresh(result) && result.list == l && result.Value == v && l.len == old(l.len)+1
+//@   ensures forall(func(e *list.Element) bool { return e.list == l && e != result ==> specCsLruStamp(e) < specCsLruStamp(result) })
+//@   ensures forall(func(e *list.Element) bool { return fresh(e) && e != result ==> e.list == nil })
+
+//@ func (*container/list.List).Remove
+//@   ensures ghostPitcsClock == old(ghostPitcsClock)
+//@   trusted
+//@   requires e != nil
+//@   modifies l.len, e.list
+//@   ensures result == e.Value
+//@   ensures old(e.list) == l ==> e.list == nil && l.len == old(l.len)-1
+//@   ensures old(e.list) != l ==> e.list == old(e.list) && l.len == old(l.len)
+//@   ensures forall(func(x *list.Element) bool { return fresh(x) ==> x.list == nil })
+
+//@ func (*container/list.List).Front
+//@   ensures ghostPitcsClock == old(ghostPitcsClock)
+//@   trusted
+//@   ensures l.len == 0 ==> result == nil
+//@   ensures l.len != 0 ==> result != nil && result.list == l && forall(func(e *list.Element) bool { return e.list == l && e != result ==> specCsLruStamp(result) < specCsLruStamp(e) })
+
+//@ func container/list.New
+//@   ensures ghostPitcsClock == old(ghostPitcsClock)
+//@   trusted
+//@   ensures result != nil && fresh(result) && result.len == 0
+//@   ensures forall(func(e *list.Element) bool { return e.list != result })
+
+// ---------------------------------------------------------------------------------------
+// LRU replacement policy (cs-lru.go)
+//   lruInv: every recorded location is a live queue element carrying its own key, every queue element
+//   is recorded under the key it carries, and the queue is as long as the location table.
+// ---------------------------------------------------------------------------------------
+
+//@ func (*CsLRU).AfterInsert
+//@   ensures ghostPitcsClock == old(ghostPitcsClock)
+//@   invariant l.queue != nil && l.locations != nil && l.queue.len == len(l.locations)
+//@   invariant forall(func(k uint64) bool { return mapHas(l.locations, k) ==> l.locations[k] != nil && l.locations[k].list == l.queue && typeIs(l.locations[k].Value, "uint64") && l.locations[k].Value.(uint64) == k })
+//@   invariant forall(func(e *list.Element) bool { return e.list == l.queue ==> typeIs(e.Value, "uint64") && mapHas(l.locations, e.Value.(uint64)) && l.locations[e.Value.(uint64)] == e })
+//@   requires !mapHas(l.locations, index)
+//@   assume len(l.locations) <= 72057594037927936
+//@   modifies l.locations[*], l.queue.len
+//@   ensures [most-recent] mapHas(l.locations, index) && fresh(l.locations[index]) && forall(func(e *list.Element) bool { return e.list == l.queue && e != l.locations[index] ==> specCsLruStamp(e) < specCsLruStamp(l.locations[index]) })
+//@   ensures [others-kept] forall(func(k uint64) bool { return k != index ==> mapHas(l.locations, k) == old(mapHas(l.locations, k)) && l.locations[k] == old(l.locations[k]) })
+//@   ensures l.queue.len == old(l.queue.len)+1
+
+// AfterRefresh: the entry becomes the most recently touched one (a new queue element younger than every other);
+// the other entries keep their place.
+//
+//@ func (*CsLRU).AfterRefresh
+//@   ensures ghostPitcsClock == old(ghostPitcsClock)
+//@   invariant l.queue != nil && l.locations != nil && l.queue.len == len(l.locations)
+//@   invariant forall(func(k uint64) bool { return mapHas(l.locations, k) ==> l.locations[k] != nil && l.locations[k].list == l.queue && typeIs(l.locations[k].Value, "uint64") && l.locations[k].Value.(uint64) == k })
+//@   invariant forall(func(e *list.Element) bool { return e.list == l.queue ==> typeIs(e.Value, "uint64") && mapHas(l.locations, e.Value.(uint64)) && l.locations[e.Value.(uint64)] == e })
+//@   assume len(l.locations) <= 72057594037927936
+//@   modifies l.locations[*], l.queue.len, l.locations[index].list
+//@   ensures [most-recent] mapHas(l.locations, index) && fresh(l.locations[index]) && forall(func(e *list.Element) bool { return e.list == l.queue && e != l.locations[index] ==> specCsLruStamp(e) < specCsLruStamp(l.locations[index]) })
+//@   ensures [others-kept] forall(func(k uint64) bool { return k != index ==> mapHas(l.locations, k) == old(mapHas(l.locations, k)) && l.locations[k] == old(l.locations[k]) })
+//@   ensures [others-stay-queued] forall(func(e *list.Element) bool { return !fresh(e) && e != old(l.locations[index]) ==> e.list == old(e.list) })
+//@   ensures old(mapHas(l.locations, index)) ==> l.queue.len == old(l.queue.len)
+//@   ensures !old(mapHas(l.locations, index)) ==> l.queue.len == old(l.queue.len)+1
+
+// BeforeUse: the entry becomes the most recently touched one (a new queue element younger than every other);
+// the other entries keep their place.
+//
+//@ func (*CsLRU).BeforeUse
+//@   ensures ghostPitcsClock == old(ghostPitcsClock)
+//@   invariant l.queue != nil && l.locations != nil && l.queue.len == len(l.locations)
+//@   invariant forall(func(k uint64) bool { return mapHas(l.locations, k) ==> l.locations[k] != nil && l.locations[k].list == l.queue && typeIs(l.locations[k].Value, "uint64") && l.locations[k].Value.(uint64) == k })
+//@   invariant forall(func(e *list.Element) bool { return e.list == l.queue ==> typeIs(e.Value, "uint64") && mapHas(l.locations, e.Value.(uint64)) && l.locations[e.Value.(uint64)] == e })
+//@   assume len(l.locations) <= 72057594037927936
+//@   modifies l.locations[*], l.queue.len, l.locations[index].list
+//@   ensures [most-recent] mapHas(l.locations, index) && fresh(l.locations[index]) && forall(func(e *list.Element) bool { return e.list == l.queue && e != l.locations[index] ==> specCsLruStamp(e) < specCsLruStamp(l.locations[index]) })
+//@   ensures [others-kept] forall(func(k uint64) bool { return k != index ==> mapHas(l.locations, k) == old(mapHas(l.locations, k)) && l.locations[k] == old(l.locations[k]) })
+//@   ensures [others-stay-queued] forall(func(e *list.Element) bool { return !fresh(e) && e != old(l.locations[index]) ==> e.list == old(e.list) })
+//@   ensures old(mapHas(l.locations, index)) ==> l.queue.len == old(l.queue.len)
+//@   ensures !old(mapHas(l.locations, index)) ==> l.queue.len == old(l.queue.len)+1
+
+// BeforeErase: the entry leaves the queue and the location table; nothing else changes.
+//
+//@ func (*CsLRU).BeforeErase
+//@   ensures ghostPitcsClock == old(ghostPitcsClock)
+//@   invariant l.queue != nil && l.locations != nil && l.queue.len == len(l.locations)
+//@   invariant forall(func(k uint64) bool { return mapHas(l.locations, k) ==> l.locations[k] != nil && l.locations[k].list == l.queue && typeIs(l.locations[k].Value, "uint64") && l.locations[k].Value.(uint64) == k })
+//@   invariant forall(func(e *list.Element) bool { return e.list == l.queue ==> typeIs(e.Value, "uint64") && mapHas(l.locations, e.Value.(uint64)) && l.locations[e.Value.(uint64)] == e })
+//@   modifies l.locations[*], l.queue.len, l.locations[index].list
+//@   ensures !mapHas(l.locations, index)
+//@   ensures forall(func(k uint64) bool { return k != index ==> mapHas(l.locations, k) == old(mapHas(l.locations, k)) && l.locations[k] == old(l.locations[k]) })
+//@   ensures forall(func(e *list.Element) bool { return e != old(l.locations[index]) ==> e.list == old(e.list) })
+//@   ensures old(mapHas(l.locations, index)) ==> l.queue.len == old(l.queue.len)-1
+//@   ensures !old(mapHas(l.locations, index)) ==> l.queue.len == old(l.queue.len)
+
+//@ func NewCsLRU
+//@   ensures ghostPitcsClock == old(ghostPitcsClock)
+//@   ensures result != nil && fresh(result) && result.cs == cs && result.queue != nil && result.locations != nil && result.queue.len == 0 && len(result.locations) == 0
+//@   ensures forall(func(k uint64) bool { return !mapHas(result.locations, k) })
+//@   ensures forall(func(e *list.Element) bool { return e.list != result.queue })
+
+// ---------------------------------------------------------------------------------------
+// Clock (A-CLOCK): time.Now() returns the next reading of an arbitrary clock; ghostPitcsClock counts the readings,
+// specPitcsClockAt(i) is the i-th reading. Before/After/Add are uninterpreted functions of their arguments.
+// ---------------------------------------------------------------------------------------
+
+var ghostPitcsClock int
+
+func specPitcsClockAt(i int) time.Time { return specPitcsClockAt(i) }
+
+//@ func time.Now
+//@   trusted
+//@   option no-alloc
+//@   modifies ghostPitcsClock
+//@   ensures result == specPitcsClockAt(old(ghostPitcsClock)) && ghostPitcsClock == old(ghostPitcsClock)+1 && ghostPitcsClock > old(ghostPitcsClock)
+
+//@ func (time.Time).Before
+//@   trusted
+//@   pure
+
+//@ func (time.Time).After
+//@   trusted
+//@   pure
+
+//@ func (time.Time).Add
+//@   trusted
+//@   pure
+
+// ---------------------------------------------------------------------------------------
+// Name tree lookups. treeLinks (stated as a function-level invariant): every child is non-nil, one level
+// deeper than its parent and points back to it.
+// ---------------------------------------------------------------------------------------
+
+//@ func (*pitCsTreeNode).findExactMatchEntryEnc
+//@   ensures ghostPitcsClock == old(ghostPitcsClock)
+//@   invariant forall(func(n *pitCsTreeNode, k uint64) bool { return mapHas(n.children, k) ==> n.children[k] != nil && n.children[k].depth == n.depth+1 && n.children[k].parent == n && n.children[k].children != nil && n.children[k].component != nil })
+//@   requires p.depth >= 0
+//@   decreases len(name) - p.depth
+//@   ensures result != nil ==> result.depth == len(name) && result.depth >= p.depth
+//@   ensures result != nil && result != p ==> result.parent != nil
+//@   ensures len(name) == p.depth ==> result == p
+//@   ensures len(name) < p.depth ==> result == nil
+
+//@ func (*pitCsTreeNode).findLongestPrefixEntryEnc
+//@   ensures ghostPitcsClock == old(ghostPitcsClock)
+//@   invariant forall(func(n *pitCsTreeNode, k uint64) bool { return mapHas(n.children, k) ==> n.children[k] != nil && n.children[k].depth == n.depth+1 && n.children[k].parent == n && n.children[k].children != nil && n.children[k].component != nil })
+//@   requires p.depth >= 0 && p.children != nil
+//@   decreases len(name) - p.depth
+//@   ensures result != nil && result.children != nil && result.depth >= p.depth && (len(name) >= p.depth ==> result.depth <= len(name))
+//@   ensures [longest] result.depth < len(name) ==> !mapHas(result.children, name[result.depth].Hash())
+//@   ensures len(name) <= p.depth ==> result == p
+
+// ---------------------------------------------------------------------------------------
+// Interface-level contracts of the replacement policy, as the Content Store sees it (the only implementation is CsLRU).
+// ---------------------------------------------------------------------------------------
+
+//@ func (CsReplacementPolicy).BeforeUse
+//@   ensures ghostPitcsClock == old(ghostPitcsClock)
+//@   requires typeIs(self, "*CsLRU") && self.(*CsLRU) != nil
+//@   invariant self.(*CsLRU).queue != nil && self.(*CsLRU).locations != nil && self.(*CsLRU).queue.len == len(self.(*CsLRU).locations)
+//@   invariant forall(func(k uint64) bool { return mapHas(self.(*CsLRU).locations, k) ==> self.(*CsLRU).locations[k] != nil && self.(*CsLRU).locations[k].list == self.(*CsLRU).queue && typeIs(self.(*CsLRU).locations[k].Value, "uint64") && self.(*CsLRU).locations[k].Value.(uint64) == k })
+//@   invariant forall(func(e *list.Element) bool { return e.list == self.(*CsLRU).queue ==> typeIs(e.Value, "uint64") && mapHas(self.(*CsLRU).locations, e.Value.(uint64)) && self.(*CsLRU).locations[e.Value.(uint64)] == e })
+//@   assume len(self.(*CsLRU).locations) <= 72057594037927936
+//@   modifies self.(*CsLRU).locations[*], self.(*CsLRU).queue.len, self.(*CsLRU).locations[index].list
+//@   ensures [most-recent] mapHas(self.(*CsLRU).locations, index) && fresh(self.(*CsLRU).locations[index]) && forall(func(e *list.Element) bool { return e.list == self.(*CsLRU).queue && e != self.(*CsLRU).locations[index] ==> specCsLruStamp(e) < specCsLruStamp(self.(*CsLRU).locations[index]) })
+//@   ensures [others-kept] forall(func(k uint64) bool { return k != index ==> mapHas(self.(*CsLRU).locations, k) == old(mapHas(self.(*CsLRU).locations, k)) && self.(*CsLRU).locations[k] == old(self.(*CsLRU).locations[k]) })
+//@   ensures old(mapHas(self.(*CsLRU).locations, index)) ==> self.(*CsLRU).queue.len == old(self.(*CsLRU).queue.len)
+//@   ensures !old(mapHas(self.(*CsLRU).locations, index)) ==> self.(*CsLRU).queue.len == old(self.(*CsLRU).queue.len)+1
+
+//@ func (CsReplacementPolicy).AfterRefresh
+//@   ensures ghostPitcsClock == old(ghostPitcsClock)
+//@   requires typeIs(self, "*CsLRU") && self.(*CsLRU) != nil
+//@   invariant self.(*CsLRU).queue != nil && self.(*CsLRU).locations != nil && self.(*CsLRU).queue.len == len(self.(*CsLRU).locations)
+//@   invariant forall(func(k uint64) bool { return mapHas(self.(*CsLRU).locations, k) ==> self.(*CsLRU).locations[k] != nil && self.(*CsLRU).locations[k].list == self.(*CsLRU).queue && typeIs(self.(*CsLRU).locations[k].Value, "uint64") && self.(*CsLRU).locations[k].Value.(uint64) == k })
+//@   invariant forall(func(e *list.Element) bool { return e.list == self.(*CsLRU).queue ==> typeIs(e.Value, "uint64") && mapHas(self.(*CsLRU).locations, e.Value.(uint64)) && self.(*CsLRU).locations[e.Value.(uint64)] == e })
+//@   assume len(self.(*CsLRU).locations) <= 72057594037927936
+//@   modifies self.(*CsLRU).locations[*], self.(*CsLRU).queue.len, self.(*CsLRU).locations[index].list
+//@   ensures [most-recent] mapHas(self.(*CsLRU).locations, index) && fresh(self.(*CsLRU).locations[index]) && forall(func(e *list.Element) bool { return e.list == self.(*CsLRU).queue && e != self.(*CsLRU).locations[index] ==> specCsLruStamp(e) < specCsLruStamp(self.(*CsLRU).locations[index]) })
+//@   ensures [others-kept] forall(func(k uint64) bool { return k != index ==> mapHas(self.(*CsLRU).locations, k) == old(mapHas(self.(*CsLRU).locations, k)) && self.(*CsLRU).locations[k] == old(self.(*CsLRU).locations[k]) })
+//@   ensures old(mapHas(self.(*CsLRU).locations, index)) ==> self.(*CsLRU).queue.len == old(self.(*CsLRU).queue.len)
+//@   ensures !old(mapHas(self.(*CsLRU).locations, index)) ==> self.(*CsLRU).queue.len == old(self.(*CsLRU).queue.len)+1
+
+// ---------------------------------------------------------------------------------------
+// Content Store lookups (C07)
+// ---------------------------------------------------------------------------------------
+
+// findMatchingDataCSPrefix: the entry returned sits at p or below it (depth), belongs to the node that holds it, and if
+// MustBeFresh is set, some clock reading taken during the call was before its stale time.
+//
+//@ func (*pitCsTreeNode).findMatchingDataCSPrefix
+//@   invariant forall(func(n *pitCsTreeNode, k uint64) bool { return mapHas(n.children, k) ==> n.children[k] != nil && n.children[k].depth == n.depth+1 && n.children[k].parent == n && n.children[k].children != nil && n.children[k].component != nil })
+//@   invariant forall(func(n *pitCsTreeNode) bool { return n.csEntry != nil ==> n.csEntry.node == n })
+//@   invariant forall(func(n *pitCsTreeNode) bool { return 0 <= n.depth && n.depth <= 281474976710656 })
+//@   requires interest != nil
+//@   modifies ghostPitcsClock
+//@   ensures ghostPitcsClock >= old(ghostPitcsClock)
+//@   ensures result != nil ==> typeIs(result, "*nameTreeCsEntry") && result.(*nameTreeCsEntry) != nil && result.(*nameTreeCsEntry).node != nil && result.(*nameTreeCsEntry).node.csEntry == result.(*nameTreeCsEntry) && result.(*nameTreeCsEntry).node.depth >= p.depth
+//@   ensures [fresh] result != nil && interest.MustBeFreshV ==> existsIn(old(ghostPitcsClock), ghostPitcsClock, func(i int) bool { return specPitcsClockAt(i).Before(result.(*nameTreeCsEntry).staleTime) })
+//@   loop 1 invariant ghostPitcsClock >= old(ghostPitcsClock)
+
+// FindMatchingDataFromCS (C07): a non-nil answer is an entry held by the node that stores it; that node is at the depth of
+// the Interest name (the node findExactMatchEntryEnc reaches), or deeper when CanBePrefix is set; with MustBeFresh some clock
+// reading taken during the call was before the entry's stale time; an exact-name hit makes the entry the most recently used.
+//
+//@ func (*PitCsTree).FindMatchingDataFromCS
+//@   invariant forall(func(n *pitCsTreeNode, k uint64) bool { return mapHas(n.children, k) ==> n.children[k] != nil && n.children[k].depth == n.depth+1 && n.children[k].parent == n && n.children[k].children != nil && n.children[k].component != nil })
+//@   invariant forall(func(n *pitCsTreeNode) bool { return n.csEntry != nil ==> n.csEntry.node == n })
+//@   invariant forall(func(n *pitCsTreeNode) bool { return 0 <= n.depth && n.depth <= 281474976710656 })
+//@   requires interest != nil && p.root != nil && p.root.depth == 0
+//@   requires p.csReplacement != nil && typeIs(p.csReplacement, "*CsLRU") && p.csReplacement.(*CsLRU) != nil
+//@   invariant p.csReplacement.(*CsLRU).queue != nil && p.csReplacement.(*CsLRU).locations != nil && p.csReplacement.(*CsLRU).queue.len == len(p.csReplacement.(*CsLRU).locations)
+//@   invariant forall(func(k uint64) bool { return mapHas(p.csReplacement.(*CsLRU).locations, k) ==> p.csReplacement.(*CsLRU).locations[k] != nil && p.csReplacement.(*CsLRU).locations[k].list == p.csReplacement.(*CsLRU).queue && typeIs(p.csReplacement.(*CsLRU).locations[k].Value, "uint64") && p.csReplacement.(*CsLRU).locations[k].Value.(uint64) == k })
+//@   invariant forall(func(e *list.Element) bool { return e.list == p.csReplacement.(*CsLRU).queue ==> typeIs(e.Value, "uint64") && mapHas(p.csReplacement.(*CsLRU).locations, e.Value.(uint64)) && p.csReplacement.(*CsLRU).locations[e.Value.(uint64)] == e })
+//@   assume len(p.csReplacement.(*CsLRU).locations) <= 72057594037927936
+//@   modifies ghostPitcsClock, p.csReplacement.(*CsLRU).locations[*], p.csReplacement.(*CsLRU).queue.len, all(list.Element.list)
+//@   ensures [name-match] result != nil ==> typeIs(result, "*nameTreeCsEntry") && result.(*nameTreeCsEntry) != nil && result.(*nameTreeCsEntry).node != nil && result.(*nameTreeCsEntry).node.csEntry == result.(*nameTreeCsEntry) && (result.(*nameTreeCsEntry).node.depth == len(interest.NameV) || (interest.CanBePrefixV && result.(*nameTreeCsEntry).node.depth >= len(interest.NameV)))
+//@   ensures [fresh] result != nil && interest.MustBeFreshV ==> existsIn(old(ghostPitcsClock), ghostPitcsClock, func(i int) bool { return specPitcsClockAt(i).Before(result.(*nameTreeCsEntry).staleTime) })
+//@   ensures [lru-touch] result != nil && !interest.CanBePrefixV ==> mapHas(p.csReplacement.(*CsLRU).locations, result.(*nameTreeCsEntry).index) && forall(func(e *list.Element) bool { return e.list == p.csReplacement.(*CsLRU).queue && e != p.csReplacement.(*CsLRU).locations[result.(*nameTreeCsEntry).index] ==> specCsLruStamp(e) < specCsLruStamp(p.csReplacement.(*CsLRU).locations[result.(*nameTreeCsEntry).index]) })
+//@   ensures [cs-untouched] result == nil || interest.CanBePrefixV ==> p.csReplacement.(*CsLRU).queue.len == old(p.csReplacement.(*CsLRU).queue.len)
+
+// ---------------------------------------------------------------------------------------
+// Content Store bookkeeping (C07/C08).
+//   csInv(p): nCsEntries == |csMap|; every csMap entry is stored under its own index and is the csEntry of its node.
+// ---------------------------------------------------------------------------------------
+
+// eraseCsDataFromReplacementStrategy (eviction path): the entry leaves csMap and its node, the counter follows, nothing
+// else changes in the CS, and [no-dead-branch] the name tree is pruned: no attached, childless, entry-less, CS-less node remains.
+//
+//@ func (*PitCsTree).eraseCsDataFromReplacementStrategy
+//@   ensures ghostPitcsClock == old(ghostPitcsClock)
+//@   invariant forall(func(n *pitCsTreeNode) bool { return n.parent != nil ==> n.component != nil && n.parent.children != nil })
+//@   invariant forall(func(a *pitCsTreeNode, b *pitCsTreeNode) bool { return a != b && a.children != nil ==> a.children != b.children })
+//@   invariant [no-dead-branch] forall(func(n *pitCsTreeNode) bool { return !pitcsDeadLeaf(n) })
+//@   invariant forall(func(n *pitCsTreeNode) bool { return n.csEntry != nil ==> n.csEntry.node == n })
+//@   invariant p.csMap != nil && p.nCsEntries == len(p.csMap)
+//@   invariant forall(func(k uint64) bool { return mapHas(p.csMap, k) ==> p.csMap[k] != nil && p.csMap[k].index == k && p.csMap[k].node != nil && p.csMap[k].node.csEntry == p.csMap[k] })
+//@   modifies p.csMap[*], p.nCsEntries, p.csMap[index].node.csEntry, all(ghostPitcsChildMap)
+//@   ensures !mapHas(p.csMap, index)
+//@   ensures forall(func(k uint64) bool { return k != index ==> mapHas(p.csMap, k) == old(mapHas(p.csMap, k)) && p.csMap[k] == old(p.csMap[k]) })
+//@   ensures old(mapHas(p.csMap, index)) ==> p.nCsEntries == old(p.nCsEntries)-1
+//@   ensures !old(mapHas(p.csMap, index)) ==> p.nCsEntries == old(p.nCsEntries)
+//@   ensures [only-deletes] forall(func(n *pitCsTreeNode, k uint64) bool { return mapHas(n.children, k) ==> old(mapHas(n.children, k)) && n.children[k] == old(n.children[k]) })
+
+//@ func (PitCsTable).eraseCsDataFromReplacementStrategy
+//@   ensures ghostPitcsClock == old(ghostPitcsClock)
+//@   requires typeIs(self, "*PitCsTree") && self.(*PitCsTree) != nil
+//@   invariant forall(func(n *pitCsTreeNode) bool { return n.parent != nil ==> n.component != nil && n.parent.children != nil })
+//@   invariant forall(func(a *pitCsTreeNode, b *pitCsTreeNode) bool { return a != b && a.children != nil ==> a.children != b.children })
+//@   invariant [no-dead-branch] forall(func(n *pitCsTreeNode) bool { return !pitcsDeadLeaf(n) })
+//@   invariant forall(func(n *pitCsTreeNode) bool { return n.csEntry != nil ==> n.csEntry.node == n })
+//@   invariant self.(*PitCsTree).csMap != nil && self.(*PitCsTree).nCsEntries == len(self.(*PitCsTree).csMap)
+//@   invariant forall(func(k uint64) bool { return mapHas(self.(*PitCsTree).csMap, k) ==> self.(*PitCsTree).csMap[k] != nil && self.(*PitCsTree).csMap[k].index == k && self.(*PitCsTree).csMap[k].node != nil && self.(*PitCsTree).csMap[k].node.csEntry == self.(*PitCsTree).csMap[k] })
+//@   modifies self.(*PitCsTree).csMap[*], self.(*PitCsTree).nCsEntries, self.(*PitCsTree).csMap[index].node.csEntry, all(ghostPitcsChildMap)
+//@   ensures !mapHas(self.(*PitCsTree).csMap, index)
+//@   ensures forall(func(k uint64) bool { return k != index ==> mapHas(self.(*PitCsTree).csMap, k) == old(mapHas(self.(*PitCsTree).csMap, k)) && self.(*PitCsTree).csMap[k] == old(self.(*PitCsTree).csMap[k]) })
+//@   ensures old(mapHas(self.(*PitCsTree).csMap, index)) ==> self.(*PitCsTree).nCsEntries == old(self.(*PitCsTree).nCsEntries)-1
+//@   ensures !old(mapHas(self.(*PitCsTree).csMap, index)) ==> self.(*PitCsTree).nCsEntries == old(self.(*PitCsTree).nCsEntries)
+//@   ensures [only-deletes] forall(func(n *pitCsTreeNode, k uint64) bool { return mapHas(n.children, k) ==> old(mapHas(n.children, k)) && n.children[k] == old(n.children[k]) })
+
+// EvictEntries (C07/C08): afterwards at most max(capacity, 0) entries are cached; [evicts-lru] everything evicted was touched
+// (inserted, refreshed, used) before everything that stays; nothing is evicted needlessly; the CS, the queue and the location
+// table stay in step (lruInv, csInv, same-keys) and the name tree is left without dead branches.
+//
+//@ func (*CsLRU).EvictEntries
+//@   ensures ghostPitcsClock == old(ghostPitcsClock)
+//@   requires l.cs != nil && typeIs(l.cs, "*PitCsTree") && l.cs.(*PitCsTree) != nil
+//@   invariant l.queue != nil && l.locations != nil && l.queue.len == len(l.locations)
+//@   invariant forall(func(k uint64) bool { return mapHas(l.locations, k) ==> l.locations[k] != nil && l.locations[k].list == l.queue && typeIs(l.locations[k].Value, "uint64") && l.locations[k].Value.(uint64) == k })
+//@   invariant forall(func(e *list.Element) bool { return e.list == l.queue ==> typeIs(e.Value, "uint64") && mapHas(l.locations, e.Value.(uint64)) && l.locations[e.Value.(uint64)] == e })
+//@   invariant forall(func(n *pitCsTreeNode) bool { return n.parent != nil ==> n.component != nil && n.parent.children != nil })
+//@   invariant forall(func(a *pitCsTreeNode, b *pitCsTreeNode) bool { return a != b && a.children != nil ==> a.children != b.children })
+//@   invariant [no-dead-branch] forall(func(n *pitCsTreeNode) bool { return !pitcsDeadLeaf(n) })
+//@   invariant forall(func(n *pitCsTreeNode) bool { return n.csEntry != nil ==> n.csEntry.node == n })
+//@   invariant l.cs.(*PitCsTree).csMap != nil && l.cs.(*PitCsTree).nCsEntries == len(l.cs.(*PitCsTree).csMap)
+//@   invariant forall(func(k uint64) bool { return mapHas(l.cs.(*PitCsTree).csMap, k) ==> l.cs.(*PitCsTree).csMap[k] != nil && l.cs.(*PitCsTree).csMap[k].index == k && l.cs.(*PitCsTree).csMap[k].node != nil && l.cs.(*PitCsTree).csMap[k].node.csEntry == l.cs.(*PitCsTree).csMap[k] })
+//@   invariant [same-keys] forall(func(k uint64) bool { return mapHas(l.cs.(*PitCsTree).csMap, k) == mapHas(l.locations, k) }) && len(l.cs.(*PitCsTree).csMap) == len(l.locations)
+//@   modifies l.locations[*], l.queue.len, all(list.Element.list), l.cs.(*PitCsTree).csMap[*], l.cs.(*PitCsTree).nCsEntries, all(pitCsTreeNode.csEntry), all(ghostPitcsChildMap)
+//@   ensures [within-capacity] l.queue.len <= csCapacity || l.queue.len == 0
+//@   ensures [no-needless-eviction] old(l.queue.len) <= csCapacity ==> l.queue.len == old(l.queue.len) && forall(func(k uint64) bool { return mapHas(l.locations, k) == old(mapHas(l.locations, k)) && mapHas(l.cs.(*PitCsTree).csMap, k) == old(mapHas(l.cs.(*PitCsTree).csMap, k)) && l.cs.(*PitCsTree).csMap[k] == old(l.cs.(*PitCsTree).csMap[k]) })
+//@   ensures [evicts-lru] forall(func(e *list.Element, e2 *list.Element) bool { return old(e.list) == l.queue && e.list != l.queue && e2.list == l.queue ==> specCsLruStamp(e) < specCsLruStamp(e2) })
+//@   ensures [only-evicts] forall(func(e *list.Element) bool { return e.list == l.queue ==> old(e.list) == l.queue }) && forall(func(k uint64) bool { return mapHas(l.locations, k) ==> old(mapHas(l.locations, k)) && l.locations[k] == old(l.locations[k]) && l.cs.(*PitCsTree).csMap[k] == old(l.cs.(*PitCsTree).csMap[k]) })
+//@   ensures [only-deletes] forall(func(n *pitCsTreeNode, k uint64) bool { return mapHas(n.children, k) ==> old(mapHas(n.children, k)) && n.children[k] == old(n.children[k]) })
+//@   loop 1 invariant forall(func(e *list.Element, e2 *list.Element) bool { return old(e.list) == l.queue && e.list != l.queue && e2.list == l.queue ==> specCsLruStamp(e) < specCsLruStamp(e2) })
+//@   loop 1 invariant forall(func(e *list.Element) bool { return e.list == l.queue ==> old(e.list) == l.queue }) && forall(func(k uint64) bool { return mapHas(l.locations, k) ==> old(mapHas(l.locations, k)) && l.locations[k] == old(l.locations[k]) && l.cs.(*PitCsTree).csMap[k] == old(l.cs.(*PitCsTree).csMap[k]) })
+//@   loop 1 invariant forall(func(n *pitCsTreeNode, k uint64) bool { return mapHas(n.children, k) ==> old(mapHas(n.children, k)) && n.children[k] == old(n.children[k]) })
+//@   loop 1 invariant old(l.queue.len) <= csCapacity ==> l.queue.len == old(l.queue.len) && forall(func(k uint64) bool { return mapHas(l.locations, k) == old(mapHas(l.locations, k)) && mapHas(l.cs.(*PitCsTree).csMap, k) == old(mapHas(l.cs.(*PitCsTree).csMap, k)) && l.cs.(*PitCsTree).csMap[k] == old(l.cs.(*PitCsTree).csMap[k]) })
+//@   loop 1 invariant ghostPitcsClock == old(ghostPitcsClock)
+//@   loop 1 decreases l.queue.len
+
+// ---------------------------------------------------------------------------------------
+// fillTreeToPrefixEnc: walks to the longest existing prefix and creates the missing nodes below it.
+// The node returned is at the depth of the name; only it may be a dead leaf (the caller stores an entry in it);
+// existing children are kept, new nodes hold nothing.
+// ---------------------------------------------------------------------------------------
+
+//@ func (*pitCsTreeNode).fillTreeToPrefixEnc
+//@   ensures ghostPitcsClock == old(ghostPitcsClock)
+//@   option heap-closedness
+//@   invariant forall(func(n *pitCsTreeNode) bool { return n.parent != nil ==> n.component != nil && n.parent.children != nil })
+//@   invariant forall(func(a *pitCsTreeNode, b *pitCsTreeNode) bool { return a != b && a.children != nil ==> a.children != b.children })
+//@   invariant forall(func(n *pitCsTreeNode, k uint64) bool { return mapHas(n.children, k) ==> n.children[k] != nil && n.children[k].depth == n.depth+1 && n.children[k].parent == n && n.children[k].children != nil && n.children[k].component != nil })
+//@   invariant forall(func(n *pitCsTreeNode) bool { return 0 <= n.depth && n.depth <= 281474976710656 })
+//@   invariant forall(func(n *pitCsTreeNode) bool { return n.csEntry != nil ==> n.csEntry.node == n })
+//@   requires p.depth == 0 && p.children != nil && len(name) <= 281474976710656
+//@   requires forall(func(n *pitCsTreeNode) bool { return !pitcsDeadLeaf(n) })
+//@   modifies all(ghostPitcsChildMap)
+//@   ensures result != nil && result.depth == len(name)
+//@   ensures [only-result-may-be-dead] forall(func(n *pitCsTreeNode) bool { return n != result ==> !pitcsDeadLeaf(n) })
+//@   ensures [only-adds] forall(func(n *pitCsTreeNode, k uint64) bool { return !fresh(n) && old(mapHas(n.children, k)) ==> mapHas(n.children, k) && n.children[k] == old(n.children[k]) })
+//@   ensures [new-nodes-hold-nothing] forall(func(n *pitCsTreeNode) bool { return fresh(n) ==> n.csEntry == nil && len(n.pitEntries) == 0 })
+//@   loop 1 invariant curNode != nil && curNode.children != nil && depth == curNode.depth+1 && curNode.depth <= len(name)
+//@   loop 1 invariant forall(func(n *pitCsTreeNode) bool { return n != curNode ==> !pitcsDeadLeaf(n) })
+//@   loop 1 invariant forall(func(n *pitCsTreeNode, k uint64) bool { return !fresh(n) && old(mapHas(n.children, k)) ==> mapHas(n.children, k) && n.children[k] == old(n.children[k]) })
+//@   loop 1 invariant fresh(curNode) || curNode.depth >= len(name) || !old(mapHas(curNode.children, name[curNode.depth].Hash()))
+//@   loop 1 invariant forall(func(n *pitCsTreeNode) bool { return fresh(n) ==> n.csEntry == nil && len(n.pitEntries) == 0 })
+//@   loop 1 decreases len(name) - curNode.depth
+
+//@ func (CsReplacementPolicy).AfterInsert
+//@   ensures ghostPitcsClock == old(ghostPitcsClock)
+//@   requires typeIs(self, "*CsLRU") && self.(*CsLRU) != nil
+//@   invariant self.(*CsLRU).queue != nil && self.(*CsLRU).locations != nil && self.(*CsLRU).queue.len == len(self.(*CsLRU).locations)
+//@   invariant forall(func(k uint64) bool { return mapHas(self.(*CsLRU).locations, k) ==> self.(*CsLRU).locations[k] != nil && self.(*CsLRU).locations[k].list == self.(*CsLRU).queue && typeIs(self.(*CsLRU).locations[k].Value, "uint64") && self.(*CsLRU).locations[k].Value.(uint64) == k })
+//@   invariant forall(func(e *list.Element) bool { return e.list == self.(*CsLRU).queue ==> typeIs(e.Value, "uint64") && mapHas(self.(*CsLRU).locations, e.Value.(uint64)) && self.(*CsLRU).locations[e.Value.(uint64)] == e })
+//@   requires !mapHas(self.(*CsLRU).locations, index)
+//@   assume len(self.(*CsLRU).locations) <= 72057594037927936
+//@   modifies self.(*CsLRU).locations[*], self.(*CsLRU).queue.len
+//@   ensures [most-recent] mapHas(self.(*CsLRU).locations, index) && fresh(self.(*CsLRU).locations[index]) && forall(func(e *list.Element) bool { return e.list == self.(*CsLRU).queue && e != self.(*CsLRU).locations[index] ==> specCsLruStamp(e) < specCsLruStamp(self.(*CsLRU).locations[index]) })
+//@   ensures [others-kept] forall(func(k uint64) bool { return k != index ==> mapHas(self.(*CsLRU).locations, k) == old(mapHas(self.(*CsLRU).locations, k)) && self.(*CsLRU).locations[k] == old(self.(*CsLRU).locations[k]) })
+//@   ensures self.(*CsLRU).queue.len == old(self.(*CsLRU).queue.len)+1
+
+//@ func (CsReplacementPolicy).EvictEntries
+//@   ensures ghostPitcsClock == old(ghostPitcsClock)
+//@   requires typeIs(self, "*CsLRU") && self.(*CsLRU) != nil && self.(*CsLRU).cs != nil && typeIs(self.(*CsLRU).cs, "*PitCsTree") && self.(*CsLRU).cs.(*PitCsTree) != nil
+//@   invariant self.(*CsLRU).queue != nil && self.(*CsLRU).locations != nil && self.(*CsLRU).queue.len == len(self.(*CsLRU).locations)
+//@   invariant forall(func(k uint64) bool { return mapHas(self.(*CsLRU).locations, k) ==> self.(*CsLRU).locations[k] != nil && self.(*CsLRU).locations[k].list == self.(*CsLRU).queue && typeIs(self.(*CsLRU).locations[k].Value, "uint64") && self.(*CsLRU).locations[k].Value.(uint64) == k })
+//@   invariant forall(func(e *list.Element) bool { return e.list == self.(*CsLRU).queue ==> typeIs(e.Value, "uint64") && mapHas(self.(*CsLRU).locations, e.Value.(uint64)) && self.(*CsLRU).locations[e.Value.(uint64)] == e })
+//@   invariant forall(func(n *pitCsTreeNode) bool { return n.parent != nil ==> n.component != nil && n.parent.children != nil })
+//@   invariant forall(func(a *pitCsTreeNode, b *pitCsTreeNode) bool { return a != b && a.children != nil ==> a.children != b.children })
+//@   invariant [no-dead-branch] forall(func(n *pitCsTreeNode) bool { return !pitcsDeadLeaf(n) })
+//@   invariant forall(func(n *pitCsTreeNode) bool { return n.csEntry != nil ==> n.csEntry.node == n })
+//@   invariant self.(*CsLRU).cs.(*PitCsTree).csMap != nil && self.(*CsLRU).cs.(*PitCsTree).nCsEntries == len(self.(*CsLRU).cs.(*PitCsTree).csMap)
+//@   invariant forall(func(k uint64) bool { return mapHas(self.(*CsLRU).cs.(*PitCsTree).csMap, k) ==> self.(*CsLRU).cs.(*PitCsTree).csMap[k] != nil && self.(*CsLRU).cs.(*PitCsTree).csMap[k].index == k && self.(*CsLRU).cs.(*PitCsTree).csMap[k].node != nil && self.(*CsLRU).cs.(*PitCsTree).csMap[k].node.csEntry == self.(*CsLRU).cs.(*PitCsTree).csMap[k] })
+//@   invariant [same-keys] forall(func(k uint64) bool { return mapHas(self.(*CsLRU).cs.(*PitCsTree).csMap, k) == mapHas(self.(*CsLRU).locations, k) }) && len(self.(*CsLRU).cs.(*PitCsTree).csMap) == len(self.(*CsLRU).locations)
+//@   modifies self.(*CsLRU).locations[*], self.(*CsLRU).queue.len, all(list.Element.list), self.(*CsLRU).cs.(*PitCsTree).csMap[*], self.(*CsLRU).cs.(*PitCsTree).nCsEntries, all(pitCsTreeNode.csEntry), all(ghostPitcsChildMap)
+//@   ensures [within-capacity] self.(*CsLRU).queue.len <= csCapacity || self.(*CsLRU).queue.len == 0
+//@   ensures [no-needless-eviction] old(self.(*CsLRU).queue.len) <= csCapacity ==> self.(*CsLRU).queue.len == old(self.(*CsLRU).queue.len) && forall(func(k uint64) bool { return mapHas(self.(*CsLRU).locations, k) == old(mapHas(self.(*CsLRU).locations, k)) && mapHas(self.(*CsLRU).cs.(*PitCsTree).csMap, k) == old(mapHas(self.(*CsLRU).cs.(*PitCsTree).csMap, k)) && self.(*CsLRU).cs.(*PitCsTree).csMap[k] == old(self.(*CsLRU).cs.(*PitCsTree).csMap[k]) })
+//@   ensures [evicts-lru] forall(func(e *list.Element, e2 *list.Element) bool { return old(e.list) == self.(*CsLRU).queue && e.list != self.(*CsLRU).queue && e2.list == self.(*CsLRU).queue ==> specCsLruStamp(e) < specCsLruStamp(e2) })
+//@   ensures [only-evicts] forall(func(e *list.Element) bool { return e.list == self.(*CsLRU).queue ==> old(e.list) == self.(*CsLRU).queue }) && forall(func(k uint64) bool { return mapHas(self.(*CsLRU).locations, k) ==> old(mapHas(self.(*CsLRU).locations, k)) && self.(*CsLRU).locations[k] == old(self.(*CsLRU).locations[k]) && self.(*CsLRU).cs.(*PitCsTree).csMap[k] == old(self.(*CsLRU).cs.(*PitCsTree).csMap[k]) })
+//@   ensures [only-deletes] forall(func(n *pitCsTreeNode, k uint64) bool { return mapHas(n.children, k) ==> old(mapHas(n.children, k)) && n.children[k] == old(n.children[k]) })
+
+// InsertData (C07): the entry for the Data name holds a private copy of the wire and goes stale at insertion time plus the
+// freshness period (insertion time itself if none is given; insertion time = the one clock reading this call takes, which
+// is the latest reading, number ghostPitcsClock-1, when it returns: the calls that follow it leave the clock alone); refreshing keeps the CS size; after inserting a NEW name at most
+// max(capacity, 0) packets are cached; the size counter, the number of entries and the LRU queue length agree; the name tree
+// is left without dead branches.
+//
+//@ func (*PitCsTree).InsertData
+//@   requires data != nil && p.root != nil && p.root.depth == 0 && p.root.children != nil
+//@   requires p.csReplacement != nil && typeIs(p.csReplacement, "*CsLRU") && p.csReplacement.(*CsLRU) != nil && typeIs(p.csReplacement.(*CsLRU).cs, "*PitCsTree") && p.csReplacement.(*CsLRU).cs.(*PitCsTree) == p
+//@   invariant forall(func(n *pitCsTreeNode) bool { return n.parent != nil ==> n.component != nil && n.parent.children != nil })
+//@   invariant forall(func(a *pitCsTreeNode, b *pitCsTreeNode) bool { return a != b && a.children != nil ==> a.children != b.children })
+//@   invariant forall(func(n *pitCsTreeNode, k uint64) bool { return mapHas(n.children, k) ==> n.children[k] != nil && n.children[k].depth == n.depth+1 && n.children[k].parent == n && n.children[k].children != nil && n.children[k].component != nil })
+//@   invariant forall(func(n *pitCsTreeNode) bool { return 0 <= n.depth && n.depth <= 281474976710656 })
+//@   invariant [no-dead-branch] forall(func(n *pitCsTreeNode) bool { return !pitcsDeadLeaf(n) })
+//@   invariant forall(func(n *pitCsTreeNode) bool { return n.csEntry != nil ==> n.csEntry.node == n })
+//@   invariant p.csMap != nil && p.nCsEntries == len(p.csMap)
+//@   invariant forall(func(k uint64) bool { return mapHas(p.csMap, k) ==> p.csMap[k] != nil && p.csMap[k].index == k && p.csMap[k].node != nil && p.csMap[k].node.csEntry == p.csMap[k] })
+//@   invariant p.csReplacement.(*CsLRU).queue != nil && p.csReplacement.(*CsLRU).locations != nil && p.csReplacement.(*CsLRU).queue.len == len(p.csReplacement.(*CsLRU).locations)
+//@   invariant forall(func(k uint64) bool { return mapHas(p.csReplacement.(*CsLRU).locations, k) ==> p.csReplacement.(*CsLRU).locations[k] != nil && p.csReplacement.(*CsLRU).locations[k].list == p.csReplacement.(*CsLRU).queue && typeIs(p.csReplacement.(*CsLRU).locations[k].Value, "uint64") && p.csReplacement.(*CsLRU).locations[k].Value.(uint64) == k })
+//@   invariant forall(func(e *list.Element) bool { return e.list == p.csReplacement.(*CsLRU).queue ==> typeIs(e.Value, "uint64") && mapHas(p.csReplacement.(*CsLRU).locations, e.Value.(uint64)) && p.csReplacement.(*CsLRU).locations[e.Value.(uint64)] == e })
+//@   invariant [same-keys] forall(func(k uint64) bool { return mapHas(p.csMap, k) == mapHas(p.csReplacement.(*CsLRU).locations, k) }) && len(p.csMap) == len(p.csReplacement.(*CsLRU).locations)
+//@   assume len(p.csReplacement.(*CsLRU).locations) <= 72057594037927936
+//@   modifies ghostPitcsClock, p.nCsEntries, p.csMap[*], all(pitCsTreeNode.csEntry), all(ghostPitcsChildMap), p.csMap[enc.SpecNameHash(data.NameV)].wire, p.csMap[enc.SpecNameHash(data.NameV)].staleTime, p.csReplacement.(*CsLRU).locations[*], p.csReplacement.(*CsLRU).queue.len, all(list.Element.list)
+//@   ensures [stale-time] mapHas(p.csMap, enc.SpecNameHash(data.NameV)) && (data.MetaInfo == nil || data.MetaInfo.FreshnessPeriod == nil) ==> p.csMap[enc.SpecNameHash(data.NameV)].staleTime == specPitcsClockAt(ghostPitcsClock-1)
+//@   ensures [stale-time] mapHas(p.csMap, enc.SpecNameHash(data.NameV)) && data.MetaInfo != nil && data.MetaInfo.FreshnessPeriod != nil ==> p.csMap[enc.SpecNameHash(data.NameV)].staleTime == specPitcsClockAt(ghostPitcsClock-1).Add(*data.MetaInfo.FreshnessPeriod)
+//@   ensures [stored-wire] mapHas(p.csMap, enc.SpecNameHash(data.NameV)) ==> fresh(p.csMap[enc.SpecNameHash(data.NameV)].wire) && len(p.csMap[enc.SpecNameHash(data.NameV)].wire) == len(wire) && forallIn(0, len(wire), func(i int) bool { return p.csMap[enc.SpecNameHash(data.NameV)].wire[i] == wire[i] })
+//@   ensures [capacity] !old(mapHas(p.csMap, enc.SpecNameHash(data.NameV))) ==> p.nCsEntries <= csCapacity || p.nCsEntries == 0
+//@   ensures [refresh-keeps-size] old(mapHas(p.csMap, enc.SpecNameHash(data.NameV))) ==> mapHas(p.csMap, enc.SpecNameHash(data.NameV)) && p.csMap[enc.SpecNameHash(data.NameV)] == old(p.csMap[enc.SpecNameHash(data.NameV)]) && p.nCsEntries == old(p.nCsEntries)
+//@   ensures [sizes-agree] p.nCsEntries == len(p.csMap) && p.nCsEntries == p.csReplacement.(*CsLRU).queue.len
+//@   ensures [fits-or-evicted] !old(mapHas(p.csMap, enc.SpecNameHash(data.NameV))) && old(p.nCsEntries) < csCapacity ==> mapHas(p.csMap, enc.SpecNameHash(data.NameV)) && p.nCsEntries == old(p.nCsEntries)+1
+
+// Copy (C07): the bytes handed out are a private copy of the stored wire (the stored wire itself is not touched).
+//
+//@ func (*baseCsEntry).Copy
+//@   ensures result2 == nil ==> fresh(result1) && len(result1) == len(bce.wire) && forallIn(0, len(bce.wire), func(i int) bool { return result1[i] == bce.wire[i] })
+//@   ensures result2 != nil ==> result0 == nil && len(result1) == 0
+
+// ---------------------------------------------------------------------------------------
+// PIT reclamation (C08)
+// ---------------------------------------------------------------------------------------
+
+// RemoveInterest: if the entry is recorded at its node it is taken out of the node's list (the other entries stay), the PIT
+// size counter drops by one, its token is forgotten, and the tree is pruned: [no-dead-branch] no attached, childless,
+// entry-less, CS-less node remains. Otherwise nothing changes.
+//
+//@ func (*PitCsTree).RemoveInterest
+//@   ensures ghostPitcsClock == old(ghostPitcsClock)
+//@   requires pitEntry != nil && typeIs(pitEntry, "*nameTreePitEntry") && pitEntry.(*nameTreePitEntry) != nil && pitEntry.(*nameTreePitEntry).node != nil && p.pitTokenMap != nil
+//@   invariant forall(func(n *pitCsTreeNode) bool { return n.parent != nil ==> n.component != nil && n.parent.children != nil })
+//@   invariant forall(func(a *pitCsTreeNode, b *pitCsTreeNode) bool { return a != b && a.children != nil ==> a.children != b.children })
+//@   invariant [no-dead-branch] forall(func(n *pitCsTreeNode) bool { return !pitcsDeadLeaf(n) })
+//@   modifies pitEntry.(*nameTreePitEntry).node.pitEntries, pitEntry.(*nameTreePitEntry).node.pitEntries[*], p.nPitEntries, p.pitTokenMap[*], all(ghostPitcsChildMap)
+//@   ensures result == old(existsIn(0, len(pitEntry.(*nameTreePitEntry).node.pitEntries), func(i int) bool { return pitEntry.(*nameTreePitEntry).node.pitEntries[i] == pitEntry.(*nameTreePitEntry) }))
+//@   ensures [counter] result ==> p.nPitEntries == old(p.nPitEntries)-1 && len(pitEntry.(*nameTreePitEntry).node.pitEntries) == old(len(pitEntry.(*nameTreePitEntry).node.pitEntries))-1
+//@   ensures [token-forgotten] result ==> !mapHas(p.pitTokenMap, pitEntry.(*nameTreePitEntry).token) && forall(func(k uint32) bool { return k != pitEntry.(*nameTreePitEntry).token ==> mapHas(p.pitTokenMap, k) == old(mapHas(p.pitTokenMap, k)) && p.pitTokenMap[k] == old(p.pitTokenMap[k]) })
+//@   ensures [removed] result && old(forallIn(0, len(pitEntry.(*nameTreePitEntry).node.pitEntries), func(i int) bool { return forallIn(0, len(pitEntry.(*nameTreePitEntry).node.pitEntries), func(j int) bool { return i != j ==> pitEntry.(*nameTreePitEntry).node.pitEntries[i] != pitEntry.(*nameTreePitEntry).node.pitEntries[j] }) })) ==> forallIn(0, len(pitEntry.(*nameTreePitEntry).node.pitEntries), func(i int) bool { return pitEntry.(*nameTreePitEntry).node.pitEntries[i] != pitEntry.(*nameTreePitEntry) })
+//@   ensures [others-kept] result ==> forallIn(0, len(pitEntry.(*nameTreePitEntry).node.pitEntries), func(i int) bool { return old(existsIn(0, len(pitEntry.(*nameTreePitEntry).node.pitEntries), func(j int) bool { return pitEntry.(*nameTreePitEntry).node.pitEntries[j] == pitEntry.(*nameTreePitEntry).node.pitEntries[i] })) })
+//@   ensures [nothing-else] !result ==> p.nPitEntries == old(p.nPitEntries) && len(pitEntry.(*nameTreePitEntry).node.pitEntries) == old(len(pitEntry.(*nameTreePitEntry).node.pitEntries)) && forall(func(k uint32) bool { return mapHas(p.pitTokenMap, k) == old(mapHas(p.pitTokenMap, k)) })
+//@   ensures [only-deletes] forall(func(n *pitCsTreeNode, k uint64) bool { return mapHas(n.children, k) ==> old(mapHas(n.children, k)) && n.children[k] == old(n.children[k]) })
+//@   loop 1 invariant -1 <= rangeindex && rangeindex < len(e.node.pitEntries)
+//@   loop 1 invariant forallIn(0, rangeindex+1, func(i int) bool { return e.node.pitEntries[i] != e })
+
+// Update (C08): every entry popped from the expiry queue is finalized (pqItem cleared, expiration callback) and then handed
+// to RemoveInterest, whose preconditions hold because [queued-entries-live] every queued item carries a non-nil entry with a
+// node; the loop terminates (the queue shrinks by one per round). The queue is an external dependency (trusted contracts in
+// std/utils/priority_queue: Pop returns the object of the root item pq[0] and keeps the other items), the callback is
+// arbitrary code that may only touch the common PIT entry fields.
+//
+//@ func (*PitCsTree).Update
+//@   requires p.onExpiration != nil
+//@   invariant p.pitTokenMap != nil
+//@   invariant [queued-entries-live] forallIn(0, len(p.pitExpiryQueue.pq), func(i int) bool { return p.pitExpiryQueue.pq[i] != nil && p.pitExpiryQueue.pq[i].object != nil && p.pitExpiryQueue.pq[i].object.node != nil })
+//@   invariant forall(func(n *pitCsTreeNode) bool { return n.parent != nil ==> n.component != nil && n.parent.children != nil })
+//@   invariant forall(func(a *pitCsTreeNode, b *pitCsTreeNode) bool { return a != b && a.children != nil ==> a.children != b.children })
+//@   invariant [no-dead-branch] forall(func(n *pitCsTreeNode) bool { return !pitcsDeadLeaf(n) })
+//@   call p.onExpiration modifies all(basePitEntry)
+//@   modifies p.pitExpiryQueue.pq, p.pitExpiryQueue.pq[*], all(nameTreePitEntry.pqItem), all(pitCsTreeNode.pitEntries), all(ghostPitcsEntrySlice), p.nPitEntries, p.pitTokenMap[*], all(ghostPitcsChildMap), all(basePitEntry), ghostPitcsClock
+//@   ensures [queue-only-shrinks] len(p.pitExpiryQueue.pq) <= old(len(p.pitExpiryQueue.pq))
+//@   loop 1 invariant len(p.pitExpiryQueue.pq) <= old(len(p.pitExpiryQueue.pq)) && sliceArr(p.pitExpiryQueue.pq) == old(sliceArr(p.pitExpiryQueue.pq))
+//@   loop 1 decreases len(p.pitExpiryQueue.pq)
+
+// ghostPitcsEntrySlice names the element storage of all per-node PIT entry lists for `modifies all(...)` clauses.
+type ghostPitcsEntrySlice = []*nameTreePitEntry
+
+// ---------------------------------------------------------------------------------------
+// PIT side of C01: which entries a Data packet satisfies, and the in-/out-records of an entry
+//   pitNodeInv: every entry listed at a node is non-nil and points back to that node.
+// ---------------------------------------------------------------------------------------
+
+// findInterestPrefixMatchByNameEnc (match rule): every entry returned sits at a node on the path of the Data name
+// (depth <= length of the name) and either has CanBePrefix set or sits at the depth of the full name.
+//
+//@ func (*PitCsTree).findInterestPrefixMatchByNameEnc
+//@   ensures ghostPitcsClock == old(ghostPitcsClock)
+//@   invariant forall(func(n *pitCsTreeNode, k uint64) bool { return mapHas(n.children, k) ==> n.children[k] != nil && n.children[k].depth == n.depth+1 && n.children[k].parent == n && n.children[k].children != nil && n.children[k].component != nil })
+//@   invariant forall(func(n *pitCsTreeNode) bool { return 0 <= n.depth && n.depth <= 281474976710656 })
+//@   invariant forall(func(n *pitCsTreeNode) bool { return n.parent != nil ==> n.depth == n.parent.depth+1 })
+//@   invariant forall(func(n *pitCsTreeNode, i int) bool { return 0 <= i && i < len(n.pitEntries) ==> n.pitEntries[i] != nil && n.pitEntries[i].node == n })
+//@   requires p.root != nil && p.root.depth == 0 && p.root.children != nil
+//@   ensures fresh(result)
+//@   ensures [match-rule] forallIn(0, len(result), func(i int) bool { return result[i] != nil && typeIs(result[i], "*nameTreePitEntry") && result[i].(*nameTreePitEntry) != nil && result[i].(*nameTreePitEntry).node != nil && result[i].(*nameTreePitEntry).node.depth <= len(name) && (result[i].(*nameTreePitEntry).canBePrefix || result[i].(*nameTreePitEntry).node.depth == len(name)) })
+//@   loop 1 invariant fresh(matching) && (curNode != nil ==> curNode.depth <= len(name))
+//@   loop 1 invariant forallIn(0, len(matching), func(i int) bool { return matching[i] != nil && typeIs(matching[i], "*nameTreePitEntry") && matching[i].(*nameTreePitEntry) != nil && matching[i].(*nameTreePitEntry).node != nil && matching[i].(*nameTreePitEntry).node.depth <= len(name) && (matching[i].(*nameTreePitEntry).canBePrefix || matching[i].(*nameTreePitEntry).node.depth == len(name)) })
+//@   loop 1 decreases pitcsDepthPlus1(curNode)
+//@   loop 2 invariant fresh(matching) && curNode != nil && curNode.depth <= len(name) && 0 <= curNode.depth
+//@   loop 2 invariant forallIn(0, len(curNode.pitEntries), func(i int) bool { return curNode.pitEntries[i] != nil && curNode.pitEntries[i].node == curNode })
+//@   loop 2 invariant forallIn(0, len(matching), func(i int) bool { return matching[i] != nil && typeIs(matching[i], "*nameTreePitEntry") && matching[i].(*nameTreePitEntry) != nil && matching[i].(*nameTreePitEntry).node != nil && matching[i].(*nameTreePitEntry).node.depth <= len(name) && (matching[i].(*nameTreePitEntry).canBePrefix || matching[i].(*nameTreePitEntry).node.depth == len(name)) })
+
+// FindInterestPrefixMatchByDataEnc: by token when one is given (exactly the entry registered under that token, if any),
+// by name otherwise.
+//
+//@ func (*PitCsTree).FindInterestPrefixMatchByDataEnc
+//@   ensures ghostPitcsClock == old(ghostPitcsClock)
+//@   invariant forall(func(n *pitCsTreeNode, k uint64) bool { return mapHas(n.children, k) ==> n.children[k] != nil && n.children[k].depth == n.depth+1 && n.children[k].parent == n && n.children[k].children != nil && n.children[k].component != nil })
+//@   invariant forall(func(n *pitCsTreeNode) bool { return 0 <= n.depth && n.depth <= 281474976710656 })
+//@   invariant forall(func(n *pitCsTreeNode) bool { return n.parent != nil ==> n.depth == n.parent.depth+1 })
+//@   invariant forall(func(n *pitCsTreeNode, i int) bool { return 0 <= i && i < len(n.pitEntries) ==> n.pitEntries[i] != nil && n.pitEntries[i].node == n })
+//@   requires data != nil && p.root != nil && p.root.depth == 0 && p.root.children != nil
+//@   requires forall(func(k uint32) bool { return mapHas(p.pitTokenMap, k) ==> p.pitTokenMap[k] != nil })
+//@   nullable token
+//@   ensures forallIn(0, len(result), func(i int) bool { return result[i] != nil })
+//@   ensures [by-token] token != nil ==> len(result) <= 1 && (len(result) == 1 ==> mapHas(p.pitTokenMap, *token) && typeIs(result[0], "*nameTreePitEntry") && result[0].(*nameTreePitEntry) == p.pitTokenMap[*token] && p.pitTokenMap[*token].token == *token)
+//@   ensures [by-token-miss] token != nil && len(result) == 0 ==> !mapHas(p.pitTokenMap, *token) || p.pitTokenMap[*token].token != *token
+//@   ensures [by-name] token == nil ==> forallIn(0, len(result), func(i int) bool { return typeIs(result[i], "*nameTreePitEntry") && result[i].(*nameTreePitEntry) != nil && result[i].(*nameTreePitEntry).node != nil && result[i].(*nameTreePitEntry).node.depth <= len(data.NameV) && (result[i].(*nameTreePitEntry).canBePrefix || result[i].(*nameTreePitEntry).node.depth == len(data.NameV)) })
+
+// FindInterestExactMatchEnc: the entry returned sits at the node of the Interest name and has the same selectors.
+//
+//@ func (*PitCsTree).FindInterestExactMatchEnc
+//@   ensures ghostPitcsClock == old(ghostPitcsClock)
+//@   invariant forall(func(n *pitCsTreeNode, k uint64) bool { return mapHas(n.children, k) ==> n.children[k] != nil && n.children[k].depth == n.depth+1 && n.children[k].parent == n && n.children[k].children != nil && n.children[k].component != nil })
+//@   invariant forall(func(n *pitCsTreeNode, i int) bool { return 0 <= i && i < len(n.pitEntries) ==> n.pitEntries[i] != nil && n.pitEntries[i].node == n })
+//@   requires interest != nil && p.root != nil && p.root.depth == 0
+//@   ensures result != nil ==> typeIs(result, "*nameTreePitEntry") && result.(*nameTreePitEntry) != nil && result.(*nameTreePitEntry).node != nil && result.(*nameTreePitEntry).node.depth == len(interest.NameV) && result.(*nameTreePitEntry).canBePrefix == interest.CanBePrefixV && result.(*nameTreePitEntry).mustBeFresh == interest.MustBeFreshV
+//@   loop 1 invariant node != nil && node.depth == len(interest.NameV)
+//@   loop 1 invariant forallIn(0, len(node.pitEntries), func(i int) bool { return node.pitEntries[i] != nil && node.pitEntries[i].node == node })
+
+// Records of an entry.
+//
+//@ func (*basePitEntry).ClearInRecords
+//@   ensures ghostPitcsClock == old(ghostPitcsClock)
+//@   modifies bpe.inRecords
+//@   ensures bpe.inRecords != nil && fresh(bpe.inRecords) && len(bpe.inRecords) == 0 && forall(func(k uint64) bool { return !mapHas(bpe.inRecords, k) })
+
+//@ func (*basePitEntry).ClearOutRecords
+//@   ensures ghostPitcsClock == old(ghostPitcsClock)
+//@   modifies bpe.outRecords
+//@   ensures bpe.outRecords != nil && fresh(bpe.outRecords) && len(bpe.outRecords) == 0 && forall(func(k uint64) bool { return !mapHas(bpe.outRecords, k) })
+
+//@ func (*nameTreePitEntry).GetOutRecords
+//@   ensures ghostPitcsClock == old(ghostPitcsClock)
+//@   requires forall(func(k uint64) bool { return mapHas(e.outRecords, k) ==> e.outRecords[k] != nil })
+//@   assume len(e.outRecords) <= 72057594037927936
+//@   ensures fresh(result)
+//@   ensures forallIn(0, len(result), func(i int) bool { return result[i] != nil && mapHas(e.outRecords, result[i].Face) ==> true })
+//@   ensures [from-map] forallIn(0, len(result), func(i int) bool { return result[i] != nil && exists(func(k uint64) bool { return mapHas(e.outRecords, k) && e.outRecords[k] == result[i] }) })
+//@   loop 1 invariant fresh(records)
+//@   loop 1 invariant forallIn(0, len(records), func(i int) bool { return records[i] != nil && exists(func(k uint64) bool { return mapHas(e.outRecords, k) && e.outRecords[k] == records[i] }) })
+
+// InsertInRecord: the in-record of the face is created or updated with the Interest's nonce; the second result tells whether
+// it existed, the third is the nonce it held before; a new record keeps a private copy of the incoming PIT token; the
+// records of the other faces are not touched.
+//
+//@ func (*basePitEntry).InsertInRecord
+//@   requires interest != nil && interest.NonceV != nil && bpe.inRecords != nil
+//@   requires forall(func(k uint64) bool { return mapHas(bpe.inRecords, k) ==> bpe.inRecords[k] != nil })
+//@   modifies bpe.inRecords[*], bpe.inRecords[face].LatestNonce, bpe.inRecords[face].LatestTimestamp, bpe.inRecords[face].LatestInterest, bpe.inRecords[face].ExpirationTime, ghostPitcsClock
+//@   ensures result0 != nil && mapHas(bpe.inRecords, face) && bpe.inRecords[face] == result0 && result0.LatestNonce == *interest.NonceV
+//@   ensures result1 == old(mapHas(bpe.inRecords, face))
+//@   ensures result1 ==> result0 == old(bpe.inRecords[face]) && result2 == old(bpe.inRecords[face].LatestNonce)
+//@   ensures !result1 ==> fresh(result0) && result2 == 0 && result0.Face == face && len(result0.PitToken) == len(incomingPitToken) && forallIn(0, len(incomingPitToken), func(i int) bool { return result0.PitToken[i] == incomingPitToken[i] })
+//@   ensures forall(func(k uint64) bool { return k != face ==> mapHas(bpe.inRecords, k) == old(mapHas(bpe.inRecords, k)) && bpe.inRecords[k] == old(bpe.inRecords[k]) })
+//@   ensures forall(func(k uint64) bool { return mapHas(bpe.inRecords, k) ==> bpe.inRecords[k] != nil })
+
+//@ func (*nameTreePitEntry).InsertOutRecord
+//@   requires interest != nil && interest.NonceV != nil && e.outRecords != nil
+//@   requires forall(func(k uint64) bool { return mapHas(e.outRecords, k) ==> e.outRecords[k] != nil })
+//@   modifies e.outRecords[*], e.outRecords[face].LatestNonce, e.outRecords[face].LatestTimestamp, e.outRecords[face].LatestInterest, e.outRecords[face].ExpirationTime, ghostPitcsClock
+//@   ensures result != nil && mapHas(e.outRecords, face) && e.outRecords[face] == result && result.LatestNonce == *interest.NonceV
+//@   ensures old(mapHas(e.outRecords, face)) ==> result == old(e.outRecords[face])
+//@   ensures !old(mapHas(e.outRecords, face)) ==> fresh(result) && result.Face == face
+//@   ensures forall(func(k uint64) bool { return k != face ==> mapHas(e.outRecords, k) == old(mapHas(e.outRecords, k)) && e.outRecords[k] == old(e.outRecords[k]) })
+//@   ensures forall(func(k uint64) bool { return mapHas(e.outRecords, k) ==> e.outRecords[k] != nil })
+
+// ---------------------------------------------------------------------------------------
+// InsertInterest (C01/C02 table side)
+// ---------------------------------------------------------------------------------------
+
+// further trusted dependency contracts used by InsertInterest (no allocation, no ghost state touched)
+//
+// (enc.Name).Equal: verified in std/encoding/zz_verif_order.go (result == specEqName: equal length, pairwise equal components)
+
+//@ func time.Unix
+//@   trusted
+//@   option no-alloc
+//@   ensures ghostPitcsClock == old(ghostPitcsClock)
+
+//@ func math/rand.Uint32
+//@   trusted
+//@   option no-alloc
+//@   ensures ghostPitcsClock == old(ghostPitcsClock)
+
+// generateNewPitToken: the token returned is not in use (termination depends on the random source: not claimed).
+//
+//@ func (*PitCsTree).generateNewPitToken
+//@   ensures ghostPitcsClock == old(ghostPitcsClock)
+//@   ensures !mapHas(p.pitTokenMap, result)
+//@   loop 1 invariant ghostPitcsClock == old(ghostPitcsClock)
+
+// InsertInterest: the entry returned sits at the node of the Interest name and has the Interest's selectors; it is either an
+// entry that was already listed there (PIT size unchanged) or a new one, registered under a token that was not in use, with
+// no records (PIT size + 1). [duplicate-nonce] the second result is true exactly if an in-record of ANOTHER face holds the
+// Interest's nonce. The tree keeps its shape invariants and has no dead branch afterwards.
+//
+//@ func (*PitCsTree).InsertInterest
+//@   requires interest != nil && interest.NonceV != nil && p.root != nil && p.root.depth == 0 && p.root.children != nil && p.pitTokenMap != nil
+//@   requires forall(func(n *pitCsTreeNode) bool { return !pitcsDeadLeaf(n) })
+//@   requires forall(func(e *nameTreePitEntry, k uint64) bool { return mapHas(e.inRecords, k) ==> e.inRecords[k] != nil })
+//@   invariant forall(func(n *pitCsTreeNode) bool { return n.parent != nil ==> n.component != nil && n.parent.children != nil })
+//@   invariant forall(func(a *pitCsTreeNode, b *pitCsTreeNode) bool { return a != b && a.children != nil ==> a.children != b.children })
+//@   invariant forall(func(n *pitCsTreeNode, k uint64) bool { return mapHas(n.children, k) ==> n.children[k] != nil && n.children[k].depth == n.depth+1 && n.children[k].parent == n && n.children[k].children != nil && n.children[k].component != nil })
+//@   invariant forall(func(n *pitCsTreeNode) bool { return 0 <= n.depth && n.depth <= 281474976710656 })
+//@   invariant forall(func(n *pitCsTreeNode) bool { return n.csEntry != nil ==> n.csEntry.node == n })
+//@   invariant forall(func(n *pitCsTreeNode, i int) bool { return 0 <= i && i < len(n.pitEntries) ==> n.pitEntries[i] != nil && n.pitEntries[i].node == n })
+//@   modifies p.nPitEntries, p.pitTokenMap[*], all(pitCsTreeNode.pitEntries), all(ghostPitcsEntrySlice), all(ghostPitcsChildMap), all(time.Time), ghostPitcsClock
+//@   ensures [no-dead-branch] forall(func(n *pitCsTreeNode) bool { return !pitcsDeadLeaf(n) })
+//@   ensures [entry] result0 != nil && typeIs(result0, "*nameTreePitEntry") && result0.(*nameTreePitEntry) != nil && result0.(*nameTreePitEntry).node != nil && result0.(*nameTreePitEntry).node.depth == len(interest.NameV) && result0.(*nameTreePitEntry).canBePrefix == interest.CanBePrefixV && result0.(*nameTreePitEntry).mustBeFresh == interest.MustBeFreshV
+//@   ensures [listed] existsIn(0, len(result0.(*nameTreePitEntry).node.pitEntries), func(i int) bool { return result0.(*nameTreePitEntry).node.pitEntries[i] == result0.(*nameTreePitEntry) })
+//@   ensures [duplicate-nonce] result1 == exists(func(k uint64) bool { return mapHas(result0.(*nameTreePitEntry).inRecords, k) && k != inFace && result0.(*nameTreePitEntry).inRecords[k].LatestNonce == *interest.NonceV })
+//@   ensures [new-entry] fresh(result0.(*nameTreePitEntry)) ==> !result1 && result0.(*nameTreePitEntry).pitCsTable == p && p.nPitEntries == old(p.nPitEntries)+1 && mapHas(p.pitTokenMap, result0.(*nameTreePitEntry).token) && p.pitTokenMap[result0.(*nameTreePitEntry).token] == result0.(*nameTreePitEntry) && !old(mapHas(p.pitTokenMap, result0.(*nameTreePitEntry).token)) && len(result0.(*nameTreePitEntry).inRecords) == 0 && len(result0.(*nameTreePitEntry).outRecords) == 0 && !result0.(*nameTreePitEntry).satisfied && result0.(*nameTreePitEntry).pqItem == nil
+//@   ensures [existing-entry] !fresh(result0.(*nameTreePitEntry)) ==> p.nPitEntries == old(p.nPitEntries) && forall(func(k uint32) bool { return mapHas(p.pitTokenMap, k) == old(mapHas(p.pitTokenMap, k)) && p.pitTokenMap[k] == old(p.pitTokenMap[k]) })
+//@   ensures [other-tokens-kept] forall(func(k uint32) bool { return k != result0.(*nameTreePitEntry).token ==> mapHas(p.pitTokenMap, k) == old(mapHas(p.pitTokenMap, k)) && p.pitTokenMap[k] == old(p.pitTokenMap[k]) })
+//@   loop 1 invariant entry == nil && node != nil && node.depth == len(interest.NameV) && p.nPitEntries == old(p.nPitEntries)
+//@   loop 1 invariant forall(func(n *pitCsTreeNode) bool { return n != node ==> !pitcsDeadLeaf(n) })
+//@   loop 1 invariant forallIn(0, len(node.pitEntries), func(i int) bool { return node.pitEntries[i] != nil && node.pitEntries[i].node == node })
+//@   loop 1 invariant forall(func(k uint32) bool { return mapHas(p.pitTokenMap, k) == old(mapHas(p.pitTokenMap, k)) && p.pitTokenMap[k] == old(p.pitTokenMap[k]) })
+//@   loop 2 invariant entry != nil && forall(func(n *pitCsTreeNode) bool { return !pitcsDeadLeaf(n) })
+//@   loop 2 invariant forall(func(k uint64) bool { return mapHas(entry.inRecords, k) ==> entry.inRecords[k] != nil })
+//@   loop 2 invariant forall(func(k uint64) bool { return visited(k) && mapHas(entry.inRecords, k) ==> !(k != inFace && entry.inRecords[k].LatestNonce == *interest.NonceV) })
